@@ -49,9 +49,24 @@ type InputSpec struct {
 	Meta   string     `json:"meta,omitempty"`
 	XSel   string     `json:"xsel,omitempty"` // malformed stream: overwrite the 4 selector bytes after packing
 	Hex    string     `json:"hex,omitempty"`  // raw bytes
+	// "mut": Base (a claim) is ABI-packed, then the byte-level mutations are applied in order (ABI boundary stream)
+	Base *InputSpec `json:"base,omitempty"`
+	Muts []Mut      `json:"muts,omitempty"`
 	// annotations written by the harness (ignored on input)
 	Sel string `json:"sel,omitempty"` // first 4 bytes actually put on the wire ("" when shorter)
 	Dec *bool  `json:"dec,omitempty"` // go-ethereum unpacks these bytes under the ABI the selector belongs to
+	Raw *string `json:"raw,omitempty"` // the bytes on the wire (hex), given for frames addressed to the bridge
+	// Eff: for a "mut" input that go-ethereum still unpacks: what go-ethereum itself (UnpackIntoMap, fields taken BY ARGUMENT
+	// NAME, independent of the code under test) reads from the mutated bytes, as a claim description
+	Eff *InputSpec `json:"eff,omitempty"`
+}
+
+// Mut is one byte-level mutation of packed calldata. Positions count from the first byte AFTER the selector.
+type Mut struct {
+	K   string `json:"k"`             // "trunc" (keep N bytes after the selector) | "word" (overwrite 32 bytes at Pos) | "append" | "byte" (xor one byte)
+	N   int    `json:"n,omitempty"`   // trunc: bytes kept
+	Pos int    `json:"pos,omitempty"` // word / byte: offset
+	Val string `json:"val,omitempty"` // word: 32 bytes hex; append: bytes hex; byte: xor mask (1 byte hex)
 }
 
 type Node struct {
@@ -187,6 +202,34 @@ func init() {
 
 // pack builds the bytes of a frame's input.
 func (s *InputSpec) pack() []byte {
+	if s.T == "mut" {
+		b := s.Base.pack()
+		for _, m := range s.Muts {
+			switch m.K {
+			case "trunc":
+				if 4+m.N < len(b) {
+					b = b[:4+m.N]
+				}
+			case "word":
+				v := hlib.UnHex(m.Val)
+				if len(v) != 32 {
+					panic("word mutation needs 32 bytes")
+				}
+				if 4+m.Pos+32 <= len(b) {
+					copy(b[4+m.Pos:], v)
+				}
+			case "byte":
+				if 4+m.Pos < len(b) {
+					b[4+m.Pos] ^= hlib.UnHex(m.Val)[0]
+				}
+			case "append":
+				b = append(b, hlib.UnHex(m.Val)...)
+			default:
+				panic("unknown mutation " + m.K)
+			}
+		}
+		return b
+	}
 	if s.T != "claim" {
 		return hlib.UnHex(s.Hex)
 	}
@@ -266,7 +309,7 @@ func unpacks(b []byte) bool {
 
 // annotate packs every frame's input, records selector / decodability and checks that the description of the
 // input (which the Coq side relies on) agrees with what go-ethereum does with the bytes.
-func annotate(n *Node, wire map[*Node][]byte) {
+func annotate(n *Node, wire map[*Node][]byte, bridge common.Address) {
 	b := n.In.pack()
 	wire[n] = b
 	n.In.Sel = ""
@@ -275,16 +318,64 @@ func annotate(n *Node, wire map[*Node][]byte) {
 	}
 	d := unpacks(b)
 	n.In.Dec = &d
-	want := false
-	if n.In.T == "claim" {
-		want = n.In.XSel == "" || family(hlib.UnHex(n.In.XSel)) == n.In.Gen
+	n.In.Raw, n.In.Eff = nil, nil
+	if addrOf(n.To) == bridge {
+		h := hlib.Hex(b)
+		n.In.Raw = &h
 	}
-	if d != want {
-		panic(fmt.Sprintf("ambiguous input description: t=%s gen=%s xsel=%s sel=%s unpacks=%v", n.In.T, n.In.Gen, n.In.XSel, n.In.Sel, d))
+	if n.In.T == "mut" {
+		if d {
+			n.In.Eff = effective(b)
+		}
+	} else {
+		want := false
+		if n.In.T == "claim" {
+			want = n.In.XSel == "" || family(hlib.UnHex(n.In.XSel)) == n.In.Gen
+		}
+		if d != want {
+			panic(fmt.Sprintf("ambiguous input description: t=%s gen=%s xsel=%s sel=%s unpacks=%v", n.In.T, n.In.Gen, n.In.XSel, n.In.Sel, d))
+		}
 	}
 	for _, c := range n.Calls {
-		annotate(c, wire)
+		annotate(c, wire, bridge)
 	}
+}
+
+// effective reads a decodable claim input with go-ethereum alone, BY ARGUMENT NAME (UnpackIntoMap): the independent
+// description of mutated calldata that the property predicate is evaluated against.
+func effective(b []byte) *InputSpec {
+	fam := family(b[:4])
+	a := abiEtrog
+	if fam == "pre" {
+		a = abiPre
+	}
+	m, err := a.MethodById(b[:4])
+	if err != nil {
+		panic(err)
+	}
+	vals := map[string]any{}
+	if err := m.Inputs.UnpackIntoMap(vals, b[4:]); err != nil {
+		panic(err)
+	}
+	proofOf := func(v any) *ProofSpec {
+		arr := v.([32][32]byte)
+		p := &ProofSpec{}
+		for i := range arr {
+			p.L = append(p.L, bytesHexNum(arr[i][:]))
+		}
+		return p
+	}
+	h := func(v any) string { x := v.([32]byte); return bytesHexNum(x[:]) }
+	e := &InputSpec{T: "claim", Gen: fam, Msg: m.Name == "claimMessage", MER: h(vals["mainnetExitRoot"]), RER: h(vals["rollupExitRoot"]),
+		DNet: vals["destinationNetwork"].(uint32), Meta: hlib.Hex(vals["metadata"].([]byte))}
+	if fam == "etrog" {
+		e.GI = vals["globalIndex"].(*big.Int).String()
+		e.PLER, e.PRER = proofOf(vals["smtProofLocalExitRoot"]), proofOf(vals["smtProofRollupExitRoot"])
+	} else {
+		e.GI = fmt.Sprint(vals["index"].(uint32))
+		e.PLER = proofOf(vals["smtProof"])
+	}
+	return e
 }
 
 // the frame as geth's callTracer prints it
@@ -408,7 +499,11 @@ func walk(n *Node, in *In, depth int, live bool, sh *shape) {
 		live = false
 	}
 	toBridge := addrOf(n.To) == addrOf(in.Bridge)
-	match := toBridge && n.In.T == "claim" && n.In.Dec != nil && *n.In.Dec && hlib.UnDec(n.In.GI).Cmp(hlib.UnDec(in.GI)) == 0
+	desc := &n.In
+	if n.In.T == "mut" && n.In.Eff != nil {
+		desc = n.In.Eff
+	}
+	match := toBridge && desc.T == "claim" && n.In.Dec != nil && *n.In.Dec && hlib.UnDec(desc.GI).Cmp(hlib.UnDec(in.GI)) == 0
 	if toBridge && live {
 		sh.liveBridge++
 	}
@@ -429,7 +524,7 @@ func run(in In) (o Out) {
 	wire := map[*Node][]byte{}
 	var raw []byte
 	if in.Root != nil {
-		annotate(in.Root, wire)
+		annotate(in.Root, wire, addrOf(in.Bridge))
 		var err error
 		if raw, err = json.Marshal(toFrame(in.Root, wire)); err != nil {
 			panic(err)
@@ -805,10 +900,79 @@ func genCase(r *hlib.Rng, idx int) In {
 			}
 		}
 	}
+	// ABI boundary stream: one bridge frame carries a packed claim with byte-level mutations (truncation, out-of-range uint32
+	// slot, dirty address bytes, moved / out-of-range metadata offset and length, trailing bytes). When go-ethereum still
+	// unpacks the bytes the frame is a claim call (inside the quantifier) whose content is what go-ethereum reads by name.
+	if idx%8 == 3 {
+		in.Kind = "abi"
+		var all []located
+		flatten(root, nil, &all)
+		l := all[r.Intn(len(all))]
+		l.n.To = g.bridge
+		l.n.In = g.mutatedInput()
+		if r.Intn(3) != 0 {
+			l.n.Err = nil
+			for _, a := range l.path {
+				a.Err = nil
+			}
+		}
+	}
 	if idx%97 == 96 {
 		in.Kind, in.Root = "rpcfail", nil
 	}
 	return in
+}
+
+func word32(v *big.Int) string {
+	b := make([]byte, 32)
+	new(big.Int).Mod(v, two256).FillBytes(b)
+	return hlib.Hex(b)
+}
+
+// mutatedInput: a packed claim (matching the event's index half of the time) with 1..2 byte-level mutations.
+func (g *gctx) mutatedInput() InputSpec {
+	r := g.rng
+	base := g.claimInput(r.Bool())
+	n := len(base.pack()) - 4
+	headWords := 73 // etrog: 2*32 proof words + 9 slots
+	u32Slots, addrSlots := []int{67, 69}, []int{68, 70}
+	if base.Gen == "pre" {
+		headWords, u32Slots, addrSlots = 41, []int{32, 35, 37}, []int{36, 38}
+	}
+	offSlot := headWords - 1
+	pow := func(k uint) *big.Int { return new(big.Int).Lsh(big.NewInt(1), k) }
+	one := func() Mut {
+		switch r.Intn(9) {
+		case 0: // truncation at a boundary
+			return Mut{K: "trunc", N: hlib.Pick(r, 0, 1, 31, 32, 1023, 1024, 32*headWords-1, 32*headWords, 32*headWords+31, 32*headWords+32, n-1, n-31, n-32, n-33)}
+		case 1:
+			return Mut{K: "trunc", N: r.Intn(n + 1)}
+		case 2: // uint32 slot
+			return Mut{K: "word", Pos: 32 * hlib.Pick(r, u32Slots...), Val: word32(hlib.Pick(r, pow(32), new(big.Int).Sub(pow(32), big.NewInt(1)), pow(255), pow(64), big.NewInt(int64(r.Intn(1000)))))}
+		case 3: // address slot with dirty upper bytes
+			return Mut{K: "word", Pos: 32 * hlib.Pick(r, addrSlots...), Val: hlib.Hex(r.Bytes(32))}
+		case 4: // metadata offset
+			return Mut{K: "word", Pos: 32 * offSlot, Val: word32(hlib.Pick(r, big.NewInt(0), big.NewInt(int64(n-32)), big.NewInt(int64(n)), big.NewInt(int64(n-31)),
+				big.NewInt(int64(32*headWords+32)), big.NewInt(int64(32*(headWords-2))), big.NewInt(int64(32*r.Intn(headWords))), big.NewInt(int64(r.Intn(n+40))),
+				pow(63), pow(64), new(big.Int).Sub(two256, big.NewInt(1)), new(big.Int).Sub(two256, big.NewInt(32))))}
+		case 5: // metadata length
+			ml := len(hlib.UnHex(base.Meta))
+			return Mut{K: "word", Pos: 32 * headWords, Val: word32(hlib.Pick(r, big.NewInt(int64(ml+1)), big.NewInt(int64(ml+32)), big.NewInt(int64(ml+33)), big.NewInt(0),
+				big.NewInt(int64(n-32*headWords-32)), big.NewInt(int64(n-32*headWords-31)), pow(63), new(big.Int).Sub(pow(63), big.NewInt(int64(32*headWords+32))),
+				new(big.Int).Sub(two256, big.NewInt(int64(32*headWords+32))), new(big.Int).Sub(two256, big.NewInt(1))))}
+		case 6:
+			return Mut{K: "append", Val: hlib.Hex(r.Bytes(1 + r.Intn(70)))}
+		case 7: // the word that a moved offset would read as a length: make it small so the moved read succeeds
+			return Mut{K: "word", Pos: 32 * r.Intn(headWords), Val: word32(big.NewInt(int64(r.Intn(64))))}
+		default:
+			return Mut{K: "byte", Pos: r.Intn(n), Val: hlib.Hex([]byte{byte(1 << uint(r.Intn(8)))})}
+		}
+	}
+	s := InputSpec{T: "mut", Base: &base, Muts: []Mut{one()}}
+	if r.Intn(3) == 0 {
+		s.Muts = append(s.Muts, one())
+	}
+	return s
 }
 
 // boundary cases, run first on every run (independent of the seed)
